@@ -261,6 +261,25 @@ def fam_plain_aux(quick=True):
             yield ("plainaux/nested/%s/mains%d" % (hkind, nmain),
                    dict(tick=0.125, inits=list(ENV_INITS),
                         framers=[dict(name="m", schedule="active", frames=frames), w, aux_framer("h", hkind)]), dict())
+    # an auxiliary (ordinary, named clone, insular clone) whose own FIRST frame carries the shared original aux `sh`: the frame
+    # carrying it can only be entered when `sh` is free or released by the same transition - the start check of the
+    # auxiliary (clone or not) must look at the auxes of its first outline
+    for how in ("aux", "clone", "mine"):
+        for holder in ("top", "sib"):
+            inner = dict(name="moo", schedule="moot" if how != "aux" else "aux", frames=[
+                dict(name="m1", items=recs("m1", ctxs) + [("aux", "sh")])])
+            carry = ("aux", "moo") if how == "aux" else ("auxclone", "moo", "worker" if how == "clone" else "mine")
+            if holder == "top":      # sh held by the over frame, which the transition a -> b does not exit
+                frames = [dict(name="top", items=recs("top", ctxs) + [("aux", "sh")]),
+                          dict(name="a", over="top", items=recs("a", ctxs) + [("go", "b", [E0])]),
+                          dict(name="b", over="top", items=recs("b", ctxs) + [carry, ("go", "a", [E1])])]
+            else:                    # sh held by the sibling a, which the transition exits: must be allowed
+                frames = [dict(name="top", items=recs("top", ctxs)),
+                          dict(name="a", over="top", items=recs("a", ctxs) + [("aux", "sh"), ("go", "b", [E0])]),
+                          dict(name="b", over="top", items=recs("b", ctxs) + [carry, ("go", "a", [E1])])]
+            yield ("plainaux/nested-shared/%s/held-by-%s" % (how, holder),
+                   dict(tick=0.125, inits=list(ENV_INITS),
+                        framers=[dict(name="m", schedule="active", frames=frames), inner, aux_framer("sh", "never")]), dict())
     # hand-over: original aux x is HELD by the active frame a while a transition tries to enter p > q; the target is
     # enterable only if x sits on at most one of p, q (it is released by a's exit), whoever holds it at the time
     for xkind in ("repeat1", "never"):
@@ -483,6 +502,16 @@ def fam_fiats(maxlen=3):
                 yield ("fiats/g%d/%s" % (guard, "-".join(seq)),
                        dict(tick=0.125, inits=[("env.e0", guard), ("env.e1", 0)],
                             framers=[dict(name="x", schedule="active", frames=frames), s]), dict())
+                if n <= 2:
+                    # the guard sits on the frame UNDER the slave's first frame: every start / ready attempt must check the
+                    # whole first outline, so the fiat reports (and reaches) the same state as with the guard on top
+                    su = dict(name="s", schedule="slave", frames=[
+                        dict(name="s0", items=recs("s0", ("benter",) + ctxs) + [("go", "s1", [("recurred", ">=", 1, False)])]),
+                        dict(name="s0u", over="s0", items=[("let", [E0])] + recs("s0u", ("benter",) + ctxs)),
+                        dict(name="s1", items=recs("s1", ctxs))])
+                    yield ("fiats/guard-under-first/g%d/%s" % (guard, "-".join(seq)),
+                           dict(tick=0.125, inits=[("env.e0", guard), ("env.e1", 0)],
+                                framers=[dict(name="x", schedule="active", frames=frames), su]), dict())
                 if guard == 1 and n <= 2:
                     # a slave declared `in front` / `in back` (legal, no effect: slaves are never scheduled), alone and with a
                     # controller that also bids `start all` / `stop all`: only fiats may change the slave's state
@@ -550,6 +579,20 @@ def fam_markers():
                         frames[1]["items"].append(("go", "C", [("cmp", "x", "==", 2, None, False)]))
                     yield ("markers/both/%s-%s/%s/%s-%s" % (k1, k2, shape, inA, by),
                            dict(tick=0.125, inits=[("x", 0), ("env.e0", 0)], framers=[dict(name="m", schedule="active", frames=frames)]), dict(xe=True))
+
+
+    # one transition guarded by marker needs on TWO different shares (same kind, same mark key): taking it must reset
+    # BOTH marks
+    for kind in ("updated", "changed"):
+        for inA in (None, "me"):
+            for by in (None, "mk"):
+                nx = (kind, "x", inA, by, False)
+                ny = (kind, "y", inA, by, False)
+                frames = [dict(name="A", items=recs("A", ctxs) + [("go", "B", [nx, ny])]),
+                          dict(name="B", items=recs("B", ctxs) + [("go", "A", [(kind, "y", None, by, False)]), ("go", "A", [E0])])]
+                yield ("markers/two-shares/%s/%s-%s" % (kind, inA, by),
+                       dict(tick=0.125, inits=[("x", 0), ("y", 0), ("env.e0", 0)], framers=[dict(name="m", schedule="active", frames=frames)]),
+                       dict(xy=True))
 
 
 # ------------------------------------------------------------------------------- C12 clones
@@ -1104,6 +1147,7 @@ def fam_clocks_aux_interrupt():
                            dict(tick=tick, T=N * tick, N=N, clocked=()))
 
 
+XY_ALPHABET = [None, {"x": 1}, {"y": 1}, {"x": 1, "y": 1}, {"x": 2, "y": 2}, {"env.e0": 1}, {"env.e0": 0}]
 XF_ALPHABET = [None, {"x": 1}, {"x": {"note": None}}, {"x": {"note": 1}}, {"x": {"value": None}}, {"env.e0": 1}, {"env.e0": 0}]
 
 
@@ -1119,3 +1163,23 @@ def fam_markers_fields():
             yield ("markers-fields/%s/%s" % (kind, inframe),
                    dict(tick=0.125, inits=[("x", 0), ("env.e0", 0)], framers=[dict(name="m", schedule="active", frames=frames)]),
                    dict(alphabet=XF_ALPHABET))
+
+
+def fam_clone_doer_state():
+    """a moot whose frames `do acc` (a behaviour whose ioinit is the framer-relative share framer.me.acclog with a MUTABLE
+    default value): the original, every named / insular / reared clone and a second build of the same program must each
+    keep their own list."""
+    ctxs = ("enter", "exit")
+    mo = dict(name="ma", schedule="moot", frames=[
+        dict(name="a", items=recs("a", ctxs) + [("acc", "recur"), ("go", "next", [E0])]),
+        dict(name="b", next="a", items=recs("b", ctxs) + [("acc", "enter"), ("go", "next", [E0])])])
+    for tags in (("c1",), ("c1", "c2"), ("mine", "mine"), ("c1", "mine"), ("c1", "c2", "mine")):
+        f0 = recs("f0", ctxs) + [("acc", "recur")] + [("auxclone", "ma", t) for t in tags] + [("go", "f1", [E1])]
+        f1 = recs("f1", ctxs) + [("go", "f0", [E1])]
+        prog = dict(tick=0.125, inits=list(ENV_INITS),
+                    framers=[dict(name="m", schedule="active", frames=[dict(name="f0", items=f0), dict(name="f1", items=f1)]), mo])
+        yield ("clone-doer-state/%s" % "+".join(tags), prog, dict())
+    f0 = recs("f0", ctxs) + [("rear", "enter", "ma", "f1"), ("rear", "enter", "ma", "f1"), ("go", "f1", [("cmp", "env.e0", "==", 0, None, False)])]
+    prog = dict(tick=0.125, inits=list(ENV_INITS),
+                framers=[dict(name="m", schedule="active", frames=[dict(name="f0", items=f0), dict(name="f1", items=recs("f1", ctxs))]), mo])
+    yield ("clone-doer-state/rear2", prog, dict())
